@@ -315,6 +315,35 @@ func buildC06(e *engine, p *rt.Package) {
 					default:
 						validate(t, fmt.Sprintf("%d response body", ri.status), responseSchema(op, "default"), tree, string(tr.lastResp))
 					}
+					// the same request again under a content type label the server does not know (browsers and
+					// proxies send such labels): whatever it answers under application/json is still described
+					// by the document
+					if ct := rapid.SampledFrom([]string{"", "", "text/plain;charset=UTF-8", "application/vnd.api+json", "-"}).Draw(t, "second_content_type"); ct != "" {
+						hdr := sent.Header.Clone()
+						if ct == "-" {
+							hdr.Del("Content-Type")
+						} else {
+							hdr.Set("Content-Type", ct)
+						}
+						rec, panicked := srv.serve(sent.Method, sent.URI, hdr, sent.Body)
+						srv.taken()
+						if panicked != "" {
+							t.Fatalf("server panicked on %s %s under Content-Type %q: %s", sent.Method, sent.URI, ct, panicked)
+						}
+						if !strings.HasPrefix(strings.ToLower(rec.Header().Get("Content-Type")), "application/json") {
+							return
+						}
+						res.class("second_content_type:answered_json")
+						tree2, perr := model.ParseJSON(rec.Body.Bytes())
+						if perr != nil {
+							t.Fatalf("response under request Content-Type %q is labelled JSON but is not JSON (%d): %s", ct, rec.Code, short(rec.Body.String(), 200))
+						}
+						key := "default"
+						if rec.Code == 200 || rec.Code == 400 {
+							key = fmt.Sprint(rec.Code)
+						}
+						validate(t, fmt.Sprintf("%d response body under request Content-Type %q", rec.Code, ct), responseSchema(op, key), tree2, rec.Body.String())
+					}
 				}
 			}})
 		}
